@@ -22,7 +22,7 @@ PID = 'C12'
 
 BUDGET = {
     # tier: (in-task, in-task line mode, client cancel, disconnect, systematic bases, max points per base)
-    'quick': (300, 200, 160, 120, 2, 200),
+    'quick': (300, 200, 160, 120, 3, 170),
     'thorough': (6000, 5000, 3000, 2500, 10, 1200),
 }
 
@@ -52,6 +52,8 @@ def make_scenario(seed: int, idx: int, family: str) -> dict:
     feats: set[str] = set()
     if family in ('intask', 'intask_line', 'base'):
         topo = driver.topology(rng) if family != 'base' else {'kind': 'attached', 'workers': int(rng.integers(2, 4))}
+        if family == 'base' and idx % 3 == 2:
+            topo = {'kind': 'detached', 'managers': [2], 'nested': False}
         for _ in range(60):
             tree, f = tree_for(rng, 'c0t', True, big=(family != 'base'))
             if has_cancel(tree):
